@@ -17,6 +17,33 @@
 //! session, HF_XET_MDB_SHARD_MIN_TARGET_SIZE=4096).  xorb_bytes_uploaded is NOT checked (snapshotted early on HEAD).
 //! The limits are read once per process: the program re-executes itself per configuration (8 KiB chunks, 40,960-byte / 8-chunk
 //! xorbs; the same with 4 KiB minimum shard size).  Prints `WITNESS ...` and exits 1 on the first violation.
+//!
+//! Coverage review (children A2..A5, B2..B5, H, H2, H3, U1, U64; all children run in parallel):
+//! * session-level oracles added to every history: a chunk stored by an earlier SUCCESSFUL session of the same machine is not
+//!   stored again (finish().new_bytes <= bytes of the chunks unknown so far; own chunker + blake3); with GlobalDedupPolicy::Never
+//!   the global-dedup counters are 0, otherwise <= the dedup counters; a shard handed to the store again (same name) counts.
+//! * local store: slices of an earlier file alone in a session (suffix, middle, hit-new-hit), sessions without files, finalize()
+//!   vs finalize_with_file_info(), 14 small + 12 single-chunk files in one session (session-level xorbs cut by bytes / by chunk
+//!   count, by either side of the comparison) re-uploaded / reordered / interleaved, a cleaner fed and dropped without finish()
+//!   (a later file deduplicates against its xorbs; one of them fails to upload), sessions dropped without finalize (with and
+//!   without pending uploads), a failed session followed by a file overlapping only its never-stored part, dry runs against
+//!   the local store (pinned: the xorbs ARE written; no shard may reach the store or the shard cache), policy Always with a second
+//!   and third machine (fresh local directories), two sessions ALIVE at the same time over one shard cache (healthy / one faulty).
+//! * further fault points: shard-session / shard-cache / global_dedup_lookup.db / shards directory unusable at
+//!   FileUploadSession::new; shard cache unusable at export time; session directory gone at flush time / mid-session; shard cache
+//!   gone mid-session; TRANSIENT faults (Fault::Blip: the xorb directory is unusable for ONE call and the 50 ms after it, every
+//!   later upload succeeds - the failure can only surface through the session's bookkeeping of background uploads) at the finish()
+//!   that cuts the session data (either side), mid-file, at the last block, with two interleaved cleaners (the error surfaces in
+//!   the OTHER cleaner).
+//! * HTTP store mirrored to disk in the local store's layout, so that "every call Ok => downloads from the store alone" is checked
+//!   for HTTP sessions too: answers was_inserted:false / shard exists / slow answers with several in flight / connection closed
+//!   without an answer (client retries), shard upload #0 / #1 / last rejected after all xorbs were accepted, xorb upload first /
+//!   middle / last rejected (also fed with pauses, also for the small files), each followed by a retry over the same local
+//!   directories and two more sessions; second session of known content sends no xorb; global dedup through GET /chunk (second
+//!   machine, policy Always; machine with policy Never sends no query); data_client::upload_async (default_config, files on disk, up
+//!   to 8 concurrent cleaners of OVERLAPPING content) healthy / xorb rejected / shard rejected / slow.
+//! * HF_XET_MAX_CONCURRENT_UPLOADS = 1 (verified: never 2 xorb uploads in flight) and 64 (verified: >= 12 in flight).
+//! A session cannot be finalized twice (finalize consumes the Arc).  Debugging aids: C16_ONLY=<child indices>, C16_VERBOSE=1.
 use std::collections::BTreeMap;
 use std::io::{Read, Write};
 use std::net::{TcpListener, TcpStream};
@@ -46,21 +73,27 @@ enum Kind {
     /// coverage-review histories against the local store (small files, further fault points, entry points, live sessions side by side)
     Extra(usize),
     /// HTTP store whose accepted objects are mirrored into a directory with the local store's layout (so that downloads can be checked)
-    Http,
+    Http(usize),
     /// HF_XET_MAX_CONCURRENT_UPLOADS = 1 / 64
     Serial,
     Wide,
 }
-const CONFIGS: [(&str, &[(&str, &str)], Kind); 10] = [
+const CONFIGS: [(&str, &[(&str, &str)], Kind); 16] = [
     ("A: 8 KiB chunks, xorbs of 40,960 bytes / 8 chunks", &[], Kind::Full),
     ("B: as A, minimum shard size 4096 bytes (several shards per session)", &[("HF_XET_MDB_SHARD_MIN_TARGET_SIZE", "4096")], Kind::Reduced),
     // the session shard is flushed to disk every ~1 kB of records while many files are cleaned concurrently
     ("C: 1 KiB chunks, xorbs of 8192 bytes / 64 chunks, minimum shard size 1024 bytes; 48 files cleaned concurrently", &[("HF_XET_TARGET_CHUNK_SIZE", "1024"), ("HF_XET_MAX_XORB_BYTES", "8192"), ("HF_XET_MAX_XORB_CHUNKS", "64"), ("HF_XET_MDB_SHARD_MIN_TARGET_SIZE", "1024")], Kind::Concurrent),
     ("A2: as A (further histories, first part)", &[], Kind::Extra(0)),
     ("A3: as A (further histories, second part)", &[], Kind::Extra(1)),
+    ("A4: as A (further histories, third part)", &[], Kind::Extra(2)),
+    ("A5: as A (further histories, fourth part)", &[], Kind::Extra(3)),
     ("B2: as B (further histories, first part)", &[("HF_XET_MDB_SHARD_MIN_TARGET_SIZE", "4096")], Kind::Extra(0)),
     ("B3: as B (further histories, second part)", &[("HF_XET_MDB_SHARD_MIN_TARGET_SIZE", "4096")], Kind::Extra(1)),
-    ("H: as A, minimum shard size 1024 bytes (a shard every 2-3 xorbs), HTTP store mirrored to disk", &[("HF_XET_MDB_SHARD_MIN_TARGET_SIZE", "1024")], Kind::Http),
+    ("B4: as B (further histories, third part)", &[("HF_XET_MDB_SHARD_MIN_TARGET_SIZE", "4096")], Kind::Extra(2)),
+    ("B5: as B (further histories, fourth part)", &[("HF_XET_MDB_SHARD_MIN_TARGET_SIZE", "4096")], Kind::Extra(3)),
+    ("H: as A, minimum shard size 1024 bytes (a shard every 2-3 xorbs), HTTP store mirrored to disk", &[("HF_XET_MDB_SHARD_MIN_TARGET_SIZE", "1024")], Kind::Http(0)),
+    ("H2: as H (uploads fed with pauses)", &[("HF_XET_MDB_SHARD_MIN_TARGET_SIZE", "1024")], Kind::Http(1)),
+    ("H3: as H (rejected xorbs, global dedup, upload_async)", &[("HF_XET_MDB_SHARD_MIN_TARGET_SIZE", "1024")], Kind::Http(2)),
     ("U1: as A, HF_XET_MAX_CONCURRENT_UPLOADS=1 (uploads strictly serialized)", &[("HF_XET_MAX_CONCURRENT_UPLOADS", "1")], Kind::Serial),
     ("U64: as A, HF_XET_MAX_CONCURRENT_UPLOADS=64 (every upload of a session in flight at once)", &[("HF_XET_MAX_CONCURRENT_UPLOADS", "64")], Kind::Wide),
 ];
@@ -612,6 +645,9 @@ struct HttpState {
     chunk_queries: usize,
     chunk_hits: usize,
     closed_without_answer: usize,
+    open_requests: usize,
+    last_activity: Option<std::time::Instant>,
+    last_session_failed: bool,
 }
 #[derive(Default)]
 struct HttpStore {
@@ -657,6 +693,24 @@ fn respond_bytes(stream: &mut TcpStream, status: &str, content_type: &str, body:
 fn serve(mut stream: TcpStream, store: Arc<HttpStore>) {
     let _ = stream.set_nodelay(true);
     while let Some((method, path, body)) = read_request(&mut stream) {
+        { let mut st = store.state.lock().unwrap(); st.open_requests += 1; st.last_activity = Some(std::time::Instant::now()); }
+        let keep = handle(&mut stream, &store, method, path, body);
+        { let mut st = store.state.lock().unwrap(); st.open_requests -= 1; st.last_activity = Some(std::time::Instant::now()); }
+        if !keep { return; }
+    }
+}
+/// waits until the store has been idle for 200 ms (uploads of a failed session that were already on the wire when the session
+/// returned must not be counted for the next one); gives up after 5 s
+async fn quiesce(store: &Arc<HttpStore>) {
+    for _ in 0..250 {
+        let idle = { let s = store.state.lock().unwrap(); s.open_requests == 0 && s.last_activity.map(|t| t.elapsed() >= Duration::from_millis(200)).unwrap_or(true) };
+        if idle { return; }
+        tokio::time::sleep(Duration::from_millis(20)).await;
+    }
+}
+fn handle(stream: &mut TcpStream, store: &Arc<HttpStore>, method: String, path: String, body: Vec<u8>) -> bool {
+    let mut stream = stream;
+    {
         if path.starts_with("/xorb/") {
             let hash = path.rsplit('/').next().unwrap_or("").to_string();
             let (reject, hold, close, delay, mirror, not_inserted) = {
@@ -679,7 +733,7 @@ fn serve(mut stream: TcpStream, store: Arc<HttpStore>) {
             if close {
                 store.state.lock().unwrap().in_flight -= 1;
                 let _ = stream.shutdown(std::net::Shutdown::Both);
-                return;
+                return false;
             }
             if reject {
                 store.state.lock().unwrap().in_flight -= 1;
@@ -741,6 +795,7 @@ fn serve(mut stream: TcpStream, store: Arc<HttpStore>) {
             respond(&mut stream, "404 Not Found", "{}");
         }
     }
+    true
 }
 fn start_http_store() -> (Arc<HttpStore>, String) {
     let store = Arc::new(HttpStore::default());
@@ -1041,10 +1096,11 @@ async fn extra_histories(tp: Arc<ThreadPool>, cfg_name: String, seed: u64, part:
     let n = ends.len();
     let plain = Opts { plain_finalize: true, ..Default::default() };
 
+    // (suffix of A: also used by E9)
+    let suffix = mkfile("A-suffix", &format!("A from its chunk boundary {} to its end: no new chunk", ends[n * 2 / 5]), ab[ends[n * 2 / 5]..].to_vec());
     if part == 0 {
         // E1. slices of an earlier file, each ALONE in its session (no xorb, a shard holding only a file record), hit -> new -> hit, a
         // file whose data went into the session's final aggregated xorb, sessions without files, finalize() vs finalize_with_file_info()
-        let suffix = mkfile("A-suffix", &format!("A from its chunk boundary {} to its end: no new chunk", ends[n * 2 / 5]), ab[ends[n * 2 / 5]..].to_vec());
         let middle = mkfile("A-middle", &format!("A between its chunk boundaries {} and {}: no new chunk", ends[n / 5], ends[n * 3 / 5]), ab[ends[n / 5]..ends[n * 3 / 5]].to_vec());
         let mut h_bytes = ab[..ends[n / 6]].to_vec();
         h_bytes.extend(random(seed * 100 + 11, 30_000));
@@ -1096,6 +1152,7 @@ async fn extra_histories(tp: Arc<ThreadPool>, cfg_name: String, seed: u64, part:
             ]).await { return Some(w); }
         }
 
+    } else if part == 3 {
         // E4. a cleaner that is fed and dropped without finish(); a later file of the session deduplicates against its xorbs
         let g = mkfile("G", "fresh random data", random(seed * 100 + 13, 100_000));
         let g_copy = mkfile("G-copy", "same bytes as the file of the dropped cleaner", (*g.data).clone());
@@ -1194,6 +1251,8 @@ async fn extra_histories(tp: Arc<ThreadPool>, cfg_name: String, seed: u64, part:
             (Fault::Break(Target::XorbDir, When::BeforeFinish(1)), il.clone()),
             (Fault::Break(Target::ShardDir, When::BeforeFinalize), Opts { interleave: true, plain_finalize: true, ..Default::default() }),
         ];
+        let half = cases.len() / 2;
+        let cases: Vec<(Fault, Opts)> = if part == 1 { cases[..half].to_vec() } else { cases[half..].to_vec() };
         for (fault, opts) in cases {
             if let Some(w) = run_history(&mut cx, "healthy upload, faulty upload of an extended file, retry (further fault points)", &[
                 ok(&[a]),
@@ -1203,7 +1262,7 @@ async fn extra_histories(tp: Arc<ThreadPool>, cfg_name: String, seed: u64, part:
             ]).await { return Some(w); }
         }
         // E10. two sessions alive at the same time over one shard cache
-        if let Some(w) = live_sessions(&mut cx, &fs).await { return Some(w); }
+        if part == 2 { if let Some(w) = live_sessions(&mut cx, &fs).await { return Some(w); } }
     }
     None
 }
@@ -1338,8 +1397,10 @@ fn start_mirrored_store(mirror: &Path, script: &Script) -> (Arc<HttpStore>, Stri
 /// A session (one add_data call per file, immediate finalize) against the HTTP store: the store's own record decides what must
 /// have happened.  Returns the outcome for further use.
 async fn http_checked_session(cx: &mut Ctx, what: &str, st: &Arc<HttpStore>, url: &str, mirror: &Path, local: &Path, scratch: &Path, files: &[FileIn], opts: &Opts, policy: GlobalDedupPolicy) -> Result<Outcome, String> {
+    if st.state.lock().unwrap().last_session_failed { quiesce(st).await; }
     let (x0, s0, bytes0, q0, closed0) = { let s = st.state.lock().unwrap(); (s.xorb_posts.len(), s.shard_posts.len(), s.shard_bytes_accepted, s.chunk_queries, s.closed_without_answer) };
     let o = run_session_opts(config_p(Endpoint::Server(url.to_string()), local, policy), cx.tp.clone(), None, files, &Fault::None, opts).await;
+    st.state.lock().unwrap().last_session_failed = o.error.is_some();
     let (xorbs, shards, shard_bytes, queries, closed, other, max_in_flight) = { let s = st.state.lock().unwrap(); (s.xorb_posts[x0..].to_vec(), s.shard_posts[s0..].to_vec(), s.shard_bytes_accepted - bytes0, s.chunk_queries - q0, s.closed_without_answer - closed0, s.other.clone(), s.max_in_flight) };
     let files_text: Vec<String> = files.iter().map(|f| format!("'{}' ({}, {} bytes)", f.name, f.what, f.data.len())).collect();
     let ctx = format!("{what}: session of files {}{} -> {}; the store received {} xorb upload(s) and {} shard upload(s)", files_text.join(", "), opts_text(opts), o.error.clone().map(|e| format!("error from {e}")).unwrap_or("every call Ok".into()), xorbs.len(), shards.len());
@@ -1391,6 +1452,9 @@ async fn http_fault_retry_fed(cx: &mut Ctx, root: &Path, tag: &str, files: &[Fil
         if s.xorb_posts.iter().all(|p| p.1) && s.shard_posts.iter().all(|p| p.1) { return Some(format!("HARNESS {what}: the scripted rejection never happened ({} xorb / {} shard uploads arrived)", s.xorb_posts.len(), s.shard_posts.len())); }
     }
     Script::default().apply(&mut st.state.lock().unwrap());
+    // after a failed session the store is replaced by a new process-local server over the same objects: uploads of the failed
+    // session that were still on the wire when it returned cannot be mistaken for uploads of the next session
+    let (st, url) = if first.error.is_some() { quiesce(&st).await; start_mirrored_store(&mirror, &Script::default()) } else { (st, url) };
     let what = format!("{what} in session 1 ({}) and accepts everything afterwards; same local directories", first.error.clone().map(|e| format!("error from {e}")).unwrap_or("every call Ok".into()));
     let with_info = Opts { one_call: true, ..Default::default() };
     for (k, set) in [files, third, files].into_iter().enumerate() {
@@ -1399,7 +1463,7 @@ async fn http_fault_retry_fed(cx: &mut Ctx, root: &Path, tag: &str, files: &[Fil
     None
 }
 
-async fn http_mirror_histories(tp: Arc<ThreadPool>, cfg_name: String, seed: u64) -> Option<String> {
+async fn http_mirror_histories(tp: Arc<ThreadPool>, cfg_name: String, seed: u64, part: usize) -> Option<String> {
     let mut cx = Ctx { tp: tp.clone(), cfg_name: cfg_name.clone(), n_download: 0, policy: GlobalDedupPolicy::Never };
     let fs = standard_files(seed);
     let root_dir = tempfile::tempdir().unwrap();
@@ -1411,6 +1475,7 @@ async fn http_mirror_histories(tp: Arc<ThreadPool>, cfg_name: String, seed: u64)
     let closer = {
         let (tp, cfg_name, root, files, third) = (tp.clone(), cfg_name.clone(), root.clone(), files.clone(), third.clone());
         tokio::spawn(async move {
+            if part != 2 { return None; }
             let mut cx = Ctx { tp, cfg_name, n_download: 0, policy: GlobalDedupPolicy::Never };
             let t = std::time::Instant::now();
             let r = http_fault_retry(&mut cx, &root, "closed", &files, Script { close_xorb_once: Some(1), ..Default::default() }, &third).await;
@@ -1439,6 +1504,7 @@ async fn http_mirror_histories(tp: Arc<ThreadPool>, cfg_name: String, seed: u64)
     if n_x < 4 || n_s < 3 { return Some(format!("HARNESS the reference session sent {n_x} xorbs and {n_s} shards (expected several of each)")); }
 
     // M2. answers that are no failures
+    if part == 0 {
     for (tag, script) in [
         ("notins", Script { not_inserted: true, ..Default::default() }),
         ("exists", Script { shard_exists: true, ..Default::default() }),
@@ -1450,14 +1516,17 @@ async fn http_mirror_histories(tp: Arc<ThreadPool>, cfg_name: String, seed: u64)
     for k in [0, 1, n_s - 1] {
         if let Some(w) = http_fault_retry(&mut cx, &root, &format!("shard{k}"), &files, Script { reject_shard: Some(k), ..Default::default() }, &third).await { return Some(w); }
     }
+    }
+    if part == 2 {
     // M4. a xorb upload is rejected: first / middle / last, then retry over the same local directories
     for (k, hold) in [(0, None), (n_x / 2, None), (n_x - 1, None), (n_x - 1, Some(0))] {
         if let Some(w) = http_fault_retry(&mut cx, &root, &format!("xorb{k}-{hold:?}"), &files, Script { reject_xorb: Some(k), hold_xorb: hold, ..Default::default() }, &third).await { return Some(w); }
     }
 
+    }
     // M5. many small files, fed with pauses: the upload of a xorb aggregated over several files is rejected (the session's
     // aggregated data cut by a finish(), either side / by finalize)
-    {
+    if part == 1 {
         let (smalls, tinies) = small_files(seed);
         let mut set = smalls.clone();
         set.extend(tinies.iter().cloned());
@@ -1471,15 +1540,16 @@ async fn http_mirror_histories(tp: Arc<ThreadPool>, cfg_name: String, seed: u64)
             n
         };
         if n_small < 4 { return Some(format!("HARNESS the small files made only {n_small} xorbs")); }
-        for k in [0, 1, n_small / 2, n_small - 2, n_small - 1] {
+        for k in [0, 1, n_small / 2, n_small - 1] {
             if let Some(w) = http_fault_retry_fed(&mut cx, &root, &format!("small{k}"), &set, Script { reject_xorb: Some(k), ..Default::default() }, &third, true).await { return Some(w); }
         }
         // and the multi-xorb files fed with pauses
-        for k in [1, n_x / 2] {
+        for k in [n_x / 2] {
             if let Some(w) = http_fault_retry_fed(&mut cx, &root, &format!("paused{k}"), &files, Script { reject_xorb: Some(k), ..Default::default() }, &third, true).await { return Some(w); }
         }
     }
 
+    if part != 2 { return None; }
     // M6. global dedup through the store's chunk index: machine 1 uploads A, machine 2 (fresh local directories) A-extended and a
     // prefix of A, machine 3 with policy Never
     {
@@ -1675,7 +1745,7 @@ fn child(idx: usize) -> i32 {
         Kind::Concurrent => tp.external_run_async_task(concurrent_histories(tp.clone(), name, seed)),
         Kind::Full | Kind::Reduced => tp.external_run_async_task(run_all(tp.clone(), name, seed, kind == Kind::Full)),
         Kind::Extra(part) => tp.external_run_async_task(extra_histories(tp.clone(), name, seed, part)),
-        Kind::Http => tp.external_run_async_task(http_mirror_histories(tp.clone(), name, seed)),
+        Kind::Http(part) => tp.external_run_async_task(http_mirror_histories(tp.clone(), name, seed, part)),
         Kind::Serial | Kind::Wide => tp.external_run_async_task(upload_limit_histories(tp.clone(), name, seed, kind == Kind::Serial)),
     };
     match r {
